@@ -219,6 +219,8 @@ Section Faithful.
   Variable r : registry.
   Variable e : fenv.
   Variable m : pmod.
+  (** the observed [resolve_type_path] of every id, parsed (closed type expressions) *)
+  Variable resolved : N -> option pty.
 
   Definition visited := list (N * pty).
   Definition seen (v : visited) (id : N) (t : pty) : bool :=
@@ -369,7 +371,13 @@ Section Faithful.
           | TDComposite _ | TDVariant _ =>
               let path := t_path ty in
               match subs_get (fe_subs e) path with
-              | Some _ => Some v      (* substituted: opaque, checked by the C07 checker *)
+              | Some _ =>
+                  (* substituted: an opaque external type.  Wherever it is mentioned, the (closed)
+                     type expression must be the path the generator resolves this very id to *)
+                  match resolved id with
+                  | Some t' => if pty_eqb t t' then Some v else None
+                  | None => Some v
+                  end
               | None =>
                 match path with
                 | [] => None
